@@ -19,7 +19,15 @@ Preconditions taken from the code/book rather than invented: helpers.basis_funct
 order <= degree (A2.3/A2.5 require n <= p; every evaluator clamps with min(degree, order)); basis_function_ders_one uses
 the half-open convention and is therefore stated on [start, end) of the domain; hodograph constructors need degree >= 2
 (the library has no degree-0 splines) and a non-rational shape (documented: returns the input with a warning);
-normalisation needs a regular point (non-zero derivative / normal: linalg.vector_normalize raises on zero magnitude)."""
+normalisation needs a regular point (non-zero derivative / normal: linalg.vector_normalize raises on zero magnitude);
+helpers.curve_deriv_cpts over the full range is stated for the derivative curves that exist (order <= p + 1 - largest
+interior multiplicity), over the evaluators' sub-range (span-p, span) for every order <= p.
+
+Instances that fail on the pinned tree (both replayed natively, see the report / known_findings proposals):
+  surface_derivs[alg=alg2, orders=above_pu], surface_deriv_cpts[orders=above_pu]: A3.7 loop stops at k = du-1, nets
+      PKL[du][l>=1] stay None for deriv_order > degree_u -> SurfaceEvaluator2.derivatives raises TypeError;
+  hodograph_surface[c0=True]: derivative_surface asks for second-order nets over the full range and divides by a
+      zero knot difference when an interior knot has multiplicity = degree."""
 from fractions import Fraction
 
 from .api import scenario
@@ -234,7 +242,7 @@ def _curve_shapes(tier):
                 for alg in ('alg1', 'alg2'):
                     out.append(dict(p=p, mult=list(mult), rational=False, alg=alg, clamped=True))
     rat = [(1, []), (1, [1]), (2, []), (2, [1])] if tier == 'quick' else \
-        [(1, []), (1, [1]), (2, []), (2, [1]), (2, [2]), (2, [1, 1]), (3, []), (3, [1])]
+        [(1, []), (1, [1]), (1, [1, 1]), (2, []), (2, [1]), (2, [2]), (2, [1, 1]), (3, [])]
     for p, mult in rat:
         out.append(dict(p=p, mult=mult, rational=True, alg='alg1', clamped=True))
     for alg in ('alg1', 'alg2'):
@@ -368,9 +376,9 @@ def surface_derivs(ctx, pu, pv, mu, mv, rational, alg, orders, symnet=True):
 # ------------------------------------------------------------------------------------------------
 # basis function derivatives (A2.3, A2.5)
 # ------------------------------------------------------------------------------------------------
-def _basis_shapes(tier):
+def _basis_shapes(tier, pmax_thorough=5):
     out = []
-    pmax, kmax = (3, 2) if tier == 'quick' else (5, 3)
+    pmax, kmax = (3, 2) if tier == 'quick' else (pmax_thorough, 3)
     for p in range(1, pmax + 1):
         for k in range(0, kmax + 1):
             for mult in shapes.compositions(k, p):
@@ -406,7 +414,7 @@ def basis_ders(ctx, p, mult):
 
 
 @scenario('C02', fns=['helpers.basis_function_ders_one', 'helpers.basis_function_ders'],
-          quick=lambda: _basis_shapes('quick'), thorough=lambda: _basis_shapes('thorough'))
+          quick=lambda: _basis_shapes('quick'), thorough=lambda: _basis_shapes('thorough', 4))   # A2.5 forks on every zero test
 def basis_ders_one(ctx, p, mult):
     """requires valid knot vector, u in [start, end) (A2.5 is half-open: right-continuous, 0 at the domain end),
     order <= p.  ensures ders_one(i)[k] == D^k B(i,p)(u) for the p+1 functions alive on the span of u (== the A2.3 row)
@@ -634,8 +642,7 @@ def _tan_surface_shapes(tier):
     if tier == 'thorough':
         out += [dict(pu=2, pv=1, mu=[1], mv=[], rational=False, symnet=True),
                 dict(pu=2, pv=2, mu=[], mv=[1], rational=False, symnet=False),
-                dict(pu=2, pv=2, mu=[1], mv=[1], rational=False, symnet=False),
-                dict(pu=3, pv=2, mu=[], mv=[1], rational=False, symnet=False),
+                dict(pu=3, pv=2, mu=[], mv=[], rational=False, symnet=False),
                 dict(pu=1, pv=1, mu=[], mv=[], rational=True, symnet=True),
                 dict(pu=2, pv=1, mu=[], mv=[], rational=True, symnet=False)]
     return out
